@@ -95,6 +95,14 @@ def _call_ions(ions, keys, form, fkeys=()):
         keys = list(fkeys)
         table = dict(zip(keys, zs))
         okw["substance_factory"] = lambda k: _Sub(table[k])
+    subs = form.get("subs") or {}
+    alias = subs.get("kind") == "aliasdict"
+    if alias:  # the mapping is keyed by the alias names; the registry maps alias -> real Substance
+        from collections import OrderedDict
+        from chempy import Substance
+        formula_of = dict(zip(fkeys, keys))
+        keys = list(fkeys)
+        alias_reg = OrderedDict((k, Substance.from_formula(formula_of[k])) for k in _registry(subs, keys))
     if f == "list":
         args = ([_mag(b, form["exp10"]) for b, _ in ions], zs)
         kw = {}
@@ -119,7 +127,7 @@ def _call_ions(ions, keys, form, fkeys=()):
     elif f == "dict":
         from collections import OrderedDict
         args = (OrderedDict((k, _mag(b, form["exp10"])) for k, (b, _) in zip(keys, ions)),)
-        kw = _substances_arg(form, keys, okw.get("substance_factory"))
+        kw = {"substances": alias_reg} if alias else _substances_arg(form, keys, okw.get("substance_factory"))
     elif f == "qdict":
         from collections import OrderedDict
         d = OrderedDict()
@@ -129,12 +137,17 @@ def _call_ions(ions, keys, form, fkeys=()):
             else:
                 d[k] = _mag(b, form["exp10b"]) * physq.UNITS[form["unit2"]]
         args = (d,)
-        kw = _substances_arg(form, keys, okw.get("substance_factory"))
+        kw = {"substances": alias_reg} if alias else _substances_arg(form, keys, okw.get("substance_factory"))
     else:
         raise core.MachineryFailure("unknown form %r" % (f,))
     kw = dict(kw, **okw)
+    before = physq.snapshot((args, {k: v for k, v in kw.items() if k != "substance_factory"}))
+    if opts.get("twice"):  # an earlier call with the very same argument objects
+        physq.observe(lambda: ionic_strength(*args, **kw), WARN_WORDS)
     o = physq.observe(lambda: ionic_strength(*args, **kw), WARN_WORDS)
-    out = dict(raised=o["raised"], exc=o["exc"], warned=o["warned"], messages=o["messages"][:1], value=None)
+    after = physq.snapshot((args, {k: v for k, v in kw.items() if k != "substance_factory"}))
+    out = dict(raised=o["raised"], exc=o["exc"], warned=o["warned"], messages=o["messages"][:1], value=None,
+               inputs_unchanged=(before == after))
     if not o["raised"]:
         try:
             out["value"] = physq.magnitude_in(o["value"], "mol/kg")
@@ -151,7 +164,8 @@ def _form_name(form):
     return form["form"] + (":" + form["unit"] if form["unit"] != "none" else "") + \
         ("+substances-" + subs if subs != "none" else "") + \
         ("+warn-" + opts["warn"] if opts.get("warn", "default") != "default" else "") + \
-        ("+units-kw" if opts.get("ukw") else "") + ("+factory" if opts.get("factory") else "")
+        ("+units-kw" if opts.get("ukw") else "") + ("+factory" if opts.get("factory") else "") + \
+        ("+twice" if opts.get("twice") else "")
 
 
 def _judge_ions(obs, exp, form):
@@ -164,6 +178,8 @@ def _judge_ions(obs, exp, form):
         return "value"
     if form["unit"] != "none" and not obs.get("has_unit"):
         return "unit-lost"
+    if exp.get("inputs_unchanged") and not obs.get("inputs_unchanged", True):
+        return "input-mutated"
     want_warn = exp.get("warn_off", "no") if (form.get("opts") or {}).get("warn") == "off" else exp["warn"]
     if want_warn == "yes" and not obs["warned"]:
         return "missing-warning"
@@ -213,7 +229,13 @@ def _make(value, arg, mode):
 
 
 def _call_dh(case, mode, omit=()):
-    import chempy.electrolytes as el
+    if mode.get("alias"):  # the deprecated alias module (import warns; the functions must be the same)
+        import warnings as _w
+        with _w.catch_warnings():
+            _w.simplefilter("ignore")
+            import chempy.debye_huckel as el
+    else:
+        import chempy.electrolytes as el
     from chempy.units import default_units as u, default_constants as consts
     kind = case["in"]["kind"]
     pt = case["in"]["pt"]
@@ -309,7 +331,7 @@ def _mode_name(mode):
     return mode["mode"] + ("+constants" if mode.get("consts") else "") + \
         ("-unitsarg" if mode.get("consts") and not mode.get("uobj", True) else "") + \
         ("+" + mode["backend"] if mode.get("backend", "default") != "default" else "") + \
-        ("+defaults-implicit" if mode.get("implicit") else "")
+        ("+defaults-implicit" if mode.get("implicit") else "") + ("+alias-module" if mode.get("alias") else "")
 
 
 def replay_dh_case(case):
